@@ -186,11 +186,13 @@ def s_unit_and_monitor(ctx):
 def pre_build(ctx):
     import gen_units
     gen_units.pre_build(ctx, "translate_init")
+    gen_units.pre_build(ctx, "translate_pop")
 
 
 def run(ctx):
     import gen_units
     gen_units.g_unit(ctx, "translate_init")
+    gen_units.g_unit(ctx, "translate_pop")
     k_units(ctx)
     s_unit_and_monitor(ctx)
 
